@@ -140,6 +140,21 @@ def main(argv=None):
     rng = random.Random(a.seed)
     gen = lang.Gen(rng, max_depth=3, p_cond=0.3)
     n = a.n or (40 if a.tier == "quick" else 800)
+    # directed: conditions whose operands have different shapes in a vectorised call (a state column next to scalar time and a shared
+    # parameter): stimulus windows with three and four operands, clamps against a number / a parameter, a cell-type switch
+    import textmodel
+    for text in ("states(V=-1, w=0.5)\nparameters(start=1, dur=2, Vth=0.5, amp=3)\n"
+                 "i_stim = Conditional(And(Ge(time, start), Le(time, start + dur), Lt(V, Vth)), amp, 0)\n"
+                 "gate = Conditional(Or(Lt(V, -2), Gt(w, 1), Ge(time, 10), Eq(amp, 0)), 1, w)\n"
+                 "dV_dt = i_stim - V*gate\ndw_dt = Conditional(Gt(V, 0), V, 0) - w + Conditional(Lt(w, Vth), Vth, w)\n",
+                 "states(x=1, y=2)\nparameters(celltype=1, lo=0.25)\n"
+                 "g = Conditional(Eq(celltype, 1), 2.5, Conditional(Eq(celltype, 2), 1.5, 1))\n"
+                 "dx_dt = -g*x + Conditional(And(Gt(time, 1), Lt(time, 3), Gt(y, lo), Lt(x, 5)), 1, 0)\n"
+                 "dy_dt = Conditional(Lt(y, lo), lo, y)*Conditional(Gt(x, 1.2), 1.2, x) - y\n"):
+        c_ = pipeline.Case(drv, text)
+        m_ = textmodel.model_from_items(c_.captured)
+        core.guarded(rep, text, check_model, rep, drv, gen, rng, m_, text, c_)
+        rep.case(key=text, nontrivial=True)
     for i in range(n):
         got = family.new_case(drv, rng, gen, rep, self_dep=0.6, n_params=rng.choice([1, 2, 3]))
         if got is None:
@@ -152,7 +167,7 @@ def main(argv=None):
     drv.close()
     return rep.finish(
         level="proof",
-        rule="random models rich in conditionals (30%), And/Or with 2-5 operands, abs, floor, Mod; rates depending on the own state (so that "
+        rule="two directed models (stimulus windows with 3-4 operands of different shapes, clamps, a cell-type switch); random models rich in conditionals (30%), And/Or with 2-5 operands, abs, floor, Mod; rates depending on the own state (so that "
              "scheme linearisations contain sign/conditionals); batches of 2-8 columns built from independent random points (columns fall on "
              "different sides of the conditions); shared and per-column parameters/time; shape option default/dynamic/multiple; non-trivial = "
              "the text contains a conditional / abs / floor / Mod",
